@@ -2,7 +2,7 @@
    the corollaries (an answer does not depend on the history; repeated queries agree; sequential
    iteration and random access agree), the witness of the known finding. *)
 From PV Require Import Spec.C10Spec Proofs.C10Base Proofs.C10Tree Proofs.C10Elf Proofs.C10Units Proofs.C10Lines
-  Proofs.C10Main Proofs.C10Top.
+  Proofs.C10Main Proofs.C10Top Proofs.C10NavTop.
 From Coq Require Import ZArith List Bool Lia ZifyBool.
 Import ListNotations.
 Open Scope Z_scope.
@@ -71,13 +71,6 @@ Section Runs.
     - cbn [app]. rewrite !spec_run_cons. cbn [fst snd]. rewrite IH. cbn [fst snd]. reflexivity.
   Qed.
 
-  Lemma hist_ok_app ok afs h1 h2 :
-    hist_ok F ok afs (h1 ++ h2) = hist_ok F ok afs h1 && hist_ok F ok (fst (spec_run F afs h1)) h2.
-  Proof.
-    revert afs. induction h1 as [|o h1 IH]; intros afs; cbn [app hist_ok].
-    - reflexivity.
-    - rewrite IH, spec_run_cons. cbn [fst]. rewrite andb_assoc. reflexivity.
-  Qed.
 End Runs.
 
 Section Final.
@@ -89,20 +82,20 @@ Section Final.
   Let P := parsers_of F.
 
   (* ================================================================ one step *)
-  Theorem step_refines_plain s afs o : Inv F s -> frames_rel F s afs -> plain_ok F afs o = true ->
+  Theorem step_refines s afs o : Inv F s -> frames_rel F s afs -> op_ok F o = true ->
     snd (step P fuel s o) = snd (spec_step F afs o) /\
     Inv F (fst (step P fuel s o)) /\ frames_rel F (fst (step P fuel s o)) (fst (spec_step F afs o)).
   Proof.
-    intros HI Hfr Hok. unfold plain_ok, op_ok in Hok.
-    apply andb_prop in Hok. destruct Hok as [Hok Hnav]. apply andb_prop in Hok. destruct Hok as [Hv Hout].
-    apply negb_true_iff in Hnav. change (refines F fuel s afs o).
-    destruct o; cbn [nav_op] in Hnav; try discriminate.
+    intros HI Hfr Hok. unfold op_ok in Hok. apply andb_prop in Hok. destruct Hok as [Hv Hout].
+    change (refines F fuel s afs o).
+    destruct o.
     - apply ref_Disturb; auto.
     - apply ref_CUAt; auto.
     - apply ref_CUContaining; auto.
     - apply ref_TopDIE; auto.
     - apply ref_DIEAt; auto.
     - apply ref_DIEGlobal; auto.
+    - apply ref_Parent; auto.
     - apply ref_FollowRef; auto.
     - apply ref_LineProg; auto.
     - apply ref_LineEntries; auto.
@@ -114,7 +107,7 @@ Section Final.
     - apply ref_NewIterSections; auto.
     - apply ref_NewIterSymbols; auto.
     - apply ref_NewIterTags; auto.
-    - apply ref_Next_plain; auto.
+    - apply ref_Next; auto.
     - apply ref_ENumSections; auto.
     - apply ref_ESection; auto.
     - apply ref_ESectionByName; auto.
@@ -127,15 +120,14 @@ Section Final.
   Qed.
 
   (* ================================================================ every finite history *)
-  Theorem history_refines_plain h : forall s afs, Inv F s -> frames_rel F s afs ->
-    hist_ok F (plain_ok F) afs h = true ->
+  Theorem history_refines h : forall s afs, Inv F s -> frames_rel F s afs -> forallb (op_ok F) h = true ->
     snd (run P fuel s h) = snd (spec_run F afs h) /\
     Inv F (fst (run P fuel s h)) /\ frames_rel F (fst (run P fuel s h)) (fst (spec_run F afs h)).
   Proof.
     induction h as [|o h IH]; intros s afs HI Hfr Hok.
     - cbn. auto.
-    - cbn [hist_ok] in Hok. apply andb_prop in Hok. destruct Hok as [Ho Hh].
-      destruct (step_refines_plain s afs o HI Hfr Ho) as (Ea & HI1 & Hfr1).
+    - cbn [forallb] in Hok. apply andb_prop in Hok. destruct Hok as [Ho Hh].
+      destruct (step_refines s afs o HI Hfr Ho) as (Ea & HI1 & Hfr1).
       destruct (IH _ _ HI1 Hfr1 Hh) as (Er & HI2 & Hfr2).
       rewrite run_cons, spec_run_cons. cbn [fst snd]. rewrite Ea, Er. auto.
   Qed.
@@ -147,54 +139,55 @@ Section Final.
   Qed.
 
   (* from a freshly opened object *)
-  Theorem history_independent_plain n h : hist_ok F (plain_ok F) (repeat AFEmpty n) h = true ->
+  Theorem history_independent n h : forallb (op_ok F) h = true ->
     snd (run P fuel (init_state n) h) = snd (spec_run F (repeat AFEmpty n) h).
   Proof.
-    intros Hok. apply (history_refines_plain h (init_state n) (repeat AFEmpty n)); auto.
+    intros Hok. apply (history_refines h (init_state n) (repeat AFEmpty n)); auto.
     - apply Inv_init.
     - apply frames_rel_init.
   Qed.
 
   (* a query asked after ANY history gets the stateless answer, i.e. the answer a freshly opened
      object gives *)
-  Theorem query_after_history n h o : hist_ok F (plain_ok F) (repeat AFEmpty n) h = true ->
-    is_query o = true -> plain_ok F (fst (spec_run F (repeat AFEmpty n) h)) o = true ->
+  Theorem query_after_history n h o : forallb (op_ok F) (h ++ [o]) = true -> is_query o = true ->
     snd (step P fuel (fst (run P fuel (init_state n) h)) o) = query_spec F o /\
     snd (step P fuel (init_state n) o) = query_spec F o.
   Proof.
-    intros Hok Hq Ho.
-    destruct (history_refines_plain h (init_state n) (repeat AFEmpty n) (Inv_init F n) (frames_rel_init n) Hok)
+    intros Hok Hq. rewrite forallb_app in Hok. apply andb_prop in Hok. destruct Hok as [Hh Ho].
+    cbn [forallb] in Ho. rewrite andb_true_r in Ho.
+    destruct (history_refines h (init_state n) (repeat AFEmpty n) (Inv_init F n) (frames_rel_init n) Hh)
       as (_ & HI & Hfr).
-    destruct (step_refines_plain _ _ o HI Hfr Ho) as (Ea & _).
+    destruct (step_refines _ _ o HI Hfr Ho) as (Ea & _).
     rewrite (is_query_spec F _ o Hq) in Ea. split; [exact Ea|].
-    assert (Ho0 : plain_ok F (repeat AFEmpty n) o = true).
-    { unfold plain_ok in *. apply andb_prop in Ho. destruct Ho as [H1 H2]. rewrite H1.
-      destruct o; try discriminate; reflexivity. }
-    destruct (step_refines_plain _ _ o (Inv_init F n) (frames_rel_init n) Ho0) as (Eb & _).
+    destruct (step_refines _ _ o (Inv_init F n) (frames_rel_init n) Ho) as (Eb & _).
     rewrite (is_query_spec F _ o Hq) in Eb. exact Eb.
   Qed.
 
   (* repeated identical queries return equal results, whatever happens in between *)
   Theorem repeated_queries_equal n h1 h2 o :
-    hist_ok F (plain_ok F) (repeat AFEmpty n) (h1 ++ o :: h2 ++ [o]) = true -> is_query o = true ->
+    forallb (op_ok F) (h1 ++ o :: h2 ++ [o]) = true -> is_query o = true ->
     let s1 := fst (run P fuel (init_state n) h1) in
     let s2 := fst (run P fuel (init_state n) (h1 ++ o :: h2)) in
     snd (step P fuel s1 o) = snd (step P fuel s2 o).
   Proof.
     intros Hok Hq s1 s2.
     assert (E : h1 ++ o :: h2 ++ [o] = (h1 ++ o :: h2) ++ [o]) by (rewrite <- app_assoc; reflexivity).
-    pose proof Hok as Hok2. rewrite E, hist_ok_app in Hok2. apply andb_prop in Hok2. destruct Hok2 as [HA HB].
-    cbn [hist_ok] in HB. apply andb_prop in HB. destruct HB as [HB _].
-    rewrite hist_ok_app in Hok. apply andb_prop in Hok. destruct Hok as [HC HD].
-    cbn [hist_ok] in HD. apply andb_prop in HD. destruct HD as [HD _].
-    destruct (query_after_history n h1 o HC Hq HD) as [E1 _].
-    destruct (query_after_history n (h1 ++ o :: h2) o HA Hq HB) as [E2 _].
+    pose proof Hok as Hok2. rewrite E in Hok2.
+    destruct (query_after_history n (h1 ++ o :: h2) o Hok2 Hq) as [E2 _].
+    assert (Hok1 : forallb (op_ok F) (h1 ++ [o]) = true).
+    { rewrite forallb_app in Hok |- *. apply andb_prop in Hok. destruct Hok as [A B]. rewrite A.
+      cbn [forallb] in B |- *. apply andb_prop in B. destruct B as [B _]. rewrite B. reflexivity. }
+    destruct (query_after_history n h1 o Hok1 Hq) as [E1 _].
     unfold s1, s2. rewrite E1, E2. reflexivity.
   Qed.
 
   (* ================================================================ sequential iteration = random access *)
   Lemma slot_rel s afs slot : frames_rel F s afs -> frame_rel F s (nth slot (frames s) FEmpty) (nth slot afs AFEmpty).
   Proof. intros H. apply Forall2_nth; [exact H|constructor]. Qed.
+
+  Lemma next_spec s afs slot : Inv F s -> frames_rel F s afs ->
+    snd (step P fuel s (Next slot)) = snd (spec_step F afs (Next slot)).
+  Proof. intros HI Hfr. apply (step_refines s afs (Next slot) HI Hfr). reflexivity. Qed.
 
   Theorem iter_CUs_agrees s afs slot off : Inv F s -> frames_rel F s afs ->
     nth slot afs AFEmpty = AFCUs off -> off < f_info_size F ->
@@ -203,9 +196,7 @@ Section Final.
     intros HI Hfr Hs Hlt. pose proof (slot_rel s afs slot Hfr) as Hrel. rewrite Hs in Hrel.
     inversion Hrel as [|? Hu| | | | | | |]. subst. destruct (Hu Hlt) as (ud & Hud).
     split; [cbn [valid_op]; unfold has_unit; rewrite Hud; reflexivity|].
-    destruct (step_refines_plain s afs (Next slot) HI Hfr) as (Ea & _).
-    { unfold plain_ok. cbn [op_ok valid_op outside_finding nav_op]. rewrite Hs. reflexivity. }
-    rewrite Ea. cbn [spec_step]. rewrite Hs. cbn [aframe_next query_spec].
+    rewrite (next_spec s afs slot HI Hfr). cbn [spec_step]. rewrite Hs. cbn [aframe_next query_spec].
     destruct (Z.ltb_spec off (f_info_size F)); [|lia]. rewrite Hud. reflexivity.
   Qed.
 
@@ -214,9 +205,7 @@ Section Final.
     snd (step P fuel s (Next slot)) = query_spec F (ESection i).
   Proof.
     intros HI Hfr Hs Hin.
-    destruct (step_refines_plain s afs (Next slot) HI Hfr) as (Ea & _).
-    { unfold plain_ok. cbn [op_ok valid_op outside_finding nav_op]. rewrite Hs. reflexivity. }
-    rewrite Ea. cbn [spec_step]. rewrite Hs. cbn [aframe_next query_spec]. rewrite Hin.
+    rewrite (next_spec s afs slot HI Hfr). cbn [spec_step]. rewrite Hs. cbn [aframe_next query_spec]. rewrite Hin.
     destruct (get_section_ok F (WFe F WF fuel Hfuel) fuel (Hfd F WF fuel Hfuel) s i (Inv_curlen F WF fuel Hfuel _ HI) Hin)
       as (v & Hv & _).
     rewrite Hv. reflexivity.
@@ -227,9 +216,7 @@ Section Final.
     snd (step P fuel s (Next slot)) = query_spec F (ESymbol i).
   Proof.
     intros HI Hfr Hs Hin.
-    destruct (step_refines_plain s afs (Next slot) HI Hfr) as (Ea & _).
-    { unfold plain_ok. cbn [op_ok valid_op outside_finding nav_op]. rewrite Hs. reflexivity. }
-    rewrite Ea. cbn [spec_step]. rewrite Hs. cbn [aframe_next query_spec]. rewrite Hin.
+    rewrite (next_spec s afs slot HI Hfr). cbn [spec_step]. rewrite Hs. cbn [aframe_next query_spec]. rewrite Hin.
     destruct (get_symbol_ok F (WFe F WF fuel Hfuel) fuel (Hfd F WF fuel Hfuel) s i (Inv_curlen F WF fuel Hfuel _ HI) Hin)
       as (v & Hv & _).
     rewrite Hv. reflexivity.
@@ -243,13 +230,32 @@ Section Final.
     inversion Hrel as [| | | | | | | |? ? Hn Hdy Hlt]. subst.
     destruct (has_dyn_facts F WF fuel Hfuel Hdy) as (Hes & nt & Hct). specialize (Hlt eq_refl nt Hct).
     split; [cbn [valid_op]; rewrite Hdy; destruct (Z.leb_spec 0 n); [reflexivity|lia]|].
-    destruct (step_refines_plain s afs (Next slot) HI Hfr) as (Ea & _).
-    { unfold plain_ok. cbn [op_ok valid_op outside_finding nav_op]. rewrite Hs. reflexivity. }
-    rewrite Ea. cbn [spec_step]. rewrite Hs. cbn [aframe_next query_spec]. rewrite Hct.
+    rewrite (next_spec s afs slot HI Hfr). cbn [spec_step]. rewrite Hs. cbn [aframe_next query_spec]. rewrite Hct.
     destruct (Z.leb_spec nt n); [lia|].
     destruct (count_tags_spec _ _ Hct) as (Hb & _).
     destruct (nth_error (f_dyns F) (Z.to_nat n)) as [[t e]|] eqn:Hnth; [reflexivity|].
     apply nth_error_None in Hnth. unfold zlen in Hb. lia.
+  Qed.
+
+  (* entries: what iter_children / iter_DIEs yield next is the answer of get_DIE_from_refaddr at that offset *)
+  Theorem iter_children_agrees s afs slot u acf ud acf' c : Inv F s -> frames_rel F s afs ->
+    nth slot afs AFEmpty = AFChildren u acf -> unit_at F u = Some ud ->
+    achildren_next (ud_entries ud) acf = (acf', Some c) ->
+    snd (step P fuel s (Next slot)) = query_spec F (DIEAt u c).
+  Proof.
+    intros HI Hfr Hs Hu Hn.
+    rewrite (next_spec s afs slot HI Hfr). cbn [spec_step]. rewrite Hs. cbn [aframe_next query_spec]. rewrite Hu, Hn.
+    reflexivity.
+  Qed.
+
+  Theorem iter_DIEs_agrees s afs slot u ast ud ast' d : Inv F s -> frames_rel F s afs ->
+    nth slot afs AFEmpty = AFSubtree u ast -> unit_at F u = Some ud ->
+    asubtree_next (ud_entries ud) ast = Some (ast', Some d) ->
+    snd (step P fuel s (Next slot)) = query_spec F (DIEAt u d).
+  Proof.
+    intros HI Hfr Hs Hu Hn.
+    rewrite (next_spec s afs slot HI Hfr). cbn [spec_step]. rewrite Hs. cbn [aframe_next query_spec]. rewrite Hu, Hn.
+    reflexivity.
   Qed.
 End Final.
 
